@@ -8,6 +8,7 @@ From Coq Require Import List Arith NArith Bool Lia.
 Import ListNotations.
 Require Import MText MRound MkModel MkEval MkEvalP MkGroupsP MkFmtP MkShapeP MkRoundP MkTreeP MkLexP MkLayoutP MkTextP.
 Require Names Py SpecContains SpecModel Order.
+Require VParse SpecParse SpecOps SpecSem VMeaning MkTotalP MkOpP MkMeaningP MkRepairP.
 Open Scope N_scope.
 
 (* 1. 'and' binds tighter than 'or', parentheses group, and evaluation has the boolean value of that formula - for every
@@ -127,6 +128,98 @@ Print Assumptions C07_parse_any_layout.
 Theorem C07_normalisation_is_neutral env m : eval_markers env (norm_l m) = eval_markers env m.
 Proof. exact (eval_norm_l env m). Qed.
 Print Assumptions C07_normalisation_is_neutral.
+
+(* 8. totality (the statement's "evaluation has the boolean value ... else it raises UndefinedComparison" leaves no third outcome):
+      for every accepted marker, under every environment whose detected part defines the eleven variables and whose supplied part
+      is typed (None only for extra), evaluate() returns a bool or raises UndefinedComparison - none of the four ECrash sources of
+      the model (KeyError / None operand, an exception out of Specifier.contains, a bad connective, a failing repair) is reachable *)
+Theorem C07_evaluate_total s m defaults ov : Marker s = MOk m -> detects_all defaults -> typed ov ->
+  (exists b, evaluate m defaults ov = EBool b) \/ evaluate m defaults ov = EUndef.
+Proof. exact (MkTotalP.evaluate_total s m defaults ov). Qed.
+Print Assumptions C07_evaluate_total.
+(* in particular the `None => ECrash` arm of C07_eval_op_dispatch is dead: a comparison never fails with anything else ... *)
+Theorem C07_eval_op_never_crashes (lhs o rhs : str) : eval_op lhs o rhs <> ECrash.
+Proof. exact (MkTotalP.eval_op_never_crashes lhs o rhs). Qed.
+Print Assumptions C07_eval_op_never_crashes.
+(* ... and in the specifier branch the operator method answers *)
+Theorem C07_specifier_branch_answers (lhs o rhs : str) sp c :
+  SpecContains.Specifier (o ++ rhs) = Some sp -> SpecModel.Version lhs = Some c ->
+  exists b, SpecContains.compare_op (SpecContains.sp_op sp) c (SpecContains.sp_text sp) = Some b /\ eval_op lhs o rhs = EBool b.
+Proof. exact (MkTotalP.eval_op_specifier_answers lhs o rhs sp c). Qed.
+Print Assumptions C07_specifier_branch_answers.
+
+(* 9. which operator is applied.  _eval_op builds Specifier(op + rhs) from the concatenation, so the operator read back need not be
+      the one written.  Unless the right operand starts with "=", it is: *)
+Theorem C07_operator_identity (o rhs : str) sp : In o op_alts -> hd_is_c 61 rhs = false ->
+  SpecContains.Specifier (o ++ rhs) = Some sp -> SpecParse.op_txt (SpecContains.sp_op sp) = o.
+Proof. exact (MkOpP.operator_identity o rhs sp). Qed.
+Print Assumptions C07_operator_identity.
+(* the complete table: the only deviations are  < + "=V" -> <=V,   > + "=V" -> >=V,   == + "=X" -> ===X *)
+Theorem C07_operator_read_back (o rhs : str) sp : In o op_alts -> SpecContains.Specifier (o ++ rhs) = Some sp ->
+  SpecParse.op_txt (SpecContains.sp_op sp) = o \/
+  exists v, rhs = 61 :: v /\
+    ((o = [60] /\ SpecContains.sp_op sp = SpecParse.OLe) \/ (o = [62] /\ SpecContains.sp_op sp = SpecParse.OGe) \/
+     (o = [61;61] /\ SpecContains.sp_op sp = SpecParse.OArb)).
+Proof. exact (MkOpP.operator_read_back o rhs sp). Qed.
+Print Assumptions C07_operator_read_back.
+(* the three absorbing cases by name (the code does this; whether PEP 508 wants a string comparison there is recorded as a finding
+   candidate in the report: python_version > "=3.8" is evaluated as python_version >= "3.8") *)
+Theorem C07_absorbing_cases lhs v :
+  eval_op lhs [60] (61 :: v) = match SpecContains.Specifier ([60;61] ++ v), SpecModel.Version lhs with
+                               | Some _, Some _ => eval_op lhs [60;61] v | _, _ => string_op lhs [60] (61 :: v) end /\
+  eval_op lhs [62] (61 :: v) = match SpecContains.Specifier ([62;61] ++ v), SpecModel.Version lhs with
+                               | Some _, Some _ => eval_op lhs [62;61] v | _, _ => string_op lhs [62] (61 :: v) end /\
+  eval_op lhs [61;61] (61 :: v) = match SpecContains.Specifier ([61;61;61] ++ v), SpecModel.Version lhs with
+                                  | Some _, Some _ => eval_op lhs [61;61;61] v | _, _ => string_op lhs [61;61] (61 :: v) end.
+Proof. split; [apply MkOpP.absorbed_lt | split; [apply MkOpP.absorbed_gt | apply MkOpP.absorbed_eq]]. Qed.
+Print Assumptions C07_absorbing_cases.
+
+(* 10. "PEP 440 specifier matching": the specifier branch computes the PEP 440 meaning of the C03 statement (SpecSem.sem on structured
+       versions: eq/prefix/compatible/ordered comparison with the pre-/post-release/local exclusions, pre-releases allowed) *)
+Theorem C07_specifier_comparison_is_pep440 (lhs o rhs : str) sp c :
+  SpecContains.Specifier (o ++ rhs) = Some sp -> SpecModel.Version lhs = Some c ->
+  exists f b, SpecSem.interp sp = Some f /\ SpecSem.form_ok (SpecContains.sp_op sp) f /\
+              SpecSem.sem (SpecContains.sp_op sp) f c = Some b /\ eval_op lhs o rhs = EBool b.
+Proof. exact (MkMeaningP.eval_op_is_pep440 lhs o rhs sp c). Qed.
+Print Assumptions C07_specifier_comparison_is_pep440.
+Theorem C07_agrees_with_contains_spec (lhs o rhs : str) sp : SpecContains.Specifier (o ++ rhs) = Some sp ->
+  match SpecSem.contains_spec sp lhs with
+  | Some (SpecContains.Ans b) => eval_op lhs o rhs = EBool b
+  | Some SpecContains.BadItem => SpecModel.Version lhs = None /\ eval_op lhs o rhs = string_op lhs o rhs
+  | _ => False
+  end.
+Proof. exact (MkMeaningP.eval_op_contains_spec lhs o rhs sp). Qed.
+Print Assumptions C07_agrees_with_contains_spec.
+(* the ordering operators spelled out: written  <= >= < >  with a right operand not starting with "=", both operands versions:
+   the right operand is the text of a version V (optional whitespace around it, no local label) and the result is the ordered
+   comparison of PEP 440 *)
+Theorem C07_ordering_operators (lhs o rhs : str) sp c : In o [[60;61]; [62;61]; [60]; [62]] -> hd_is_c 61 rhs = false ->
+  SpecContains.Specifier (o ++ rhs) = Some sp -> SpecModel.Version lhs = Some c ->
+  exists V ws wr,
+    rhs = ws ++ SpecContains.sp_text sp ++ wr /\ forallb VParse.is_ws ws = true /\ forallb VParse.is_ws wr = true /\
+    SpecModel.Version (SpecContains.sp_text sp) = Some V /\ Py.local V = None /\ VMeaning.wf_version V /\ VMeaning.wf_version c /\
+    (o = [60;61] -> eval_op lhs o rhs = EBool (SpecOps.le_spec c V)) /\
+    (o = [62;61] -> eval_op lhs o rhs = EBool (SpecOps.ge_spec c V)) /\
+    (o = [60] -> eval_op lhs o rhs = EBool (SpecOps.lt_spec c V)) /\
+    (o = [62] -> eval_op lhs o rhs = EBool (SpecOps.gt_spec c V)).
+Proof. exact (MkMeaningP.eval_op_ordering lhs o rhs sp c). Qed.
+Print Assumptions C07_ordering_operators.
+
+(* 11. the repair produces a VALID local version: if what precedes the final "+" is a version without local label (and without trailing
+       whitespace), Version() accepts the completed text (C07_repair_makes_local_version above only gave its shape) *)
+Theorem C07_repair_valid_version v u c : v = u ++ [43] -> SpecModel.Version u = Some c -> Py.local c = None -> MkRepairP.ends_ws u = false ->
+  ends_plus v = true /\ exists c', SpecModel.Version (v ++ w_local) = Some c'.
+Proof. exact (MkRepairP.repair_makes_valid_version v u c). Qed.
+Print Assumptions C07_repair_valid_version.
+
+(* non-vacuity of 8-11 (closed boolean checks, proved in the domain files by vm_compute) *)
+Example C07_new_nonvacuous :
+  MkTotalP.total_check = true /\ MkOpP.absorb_check = true /\ MkMeaningP.meaning_check = true /\ MkRepairP.repair_check = true /\
+  detects_all MkTotalP.total_defaults.
+Proof.
+  split; [exact MkTotalP.total_nonvacuous|]. split; [exact MkOpP.absorb_nonvacuous|]. split; [exact MkMeaningP.meaning_nonvacuous|].
+  split; [exact MkRepairP.repair_nonvacuous | exact MkTotalP.total_defaults_detect].
+Qed.
 
 (* non-vacuity: the text  os.name=='a' or os_name == 'b' and (extra == 'C_d')  under os_name = "b", extra = "c.D", python_full_version = "3.9+" *)
 Definition ex_f : form :=
